@@ -325,3 +325,7 @@ mod standard_basis_tests {
         }
     }
 }
+
+#[cfg(kani)]
+#[path = "/verif/kani/basis.rs"]
+mod verif_kani;
